@@ -297,6 +297,8 @@ class Executor(ExprMixin, StmtMixin, Engine):
                 yield from self.ev_call_value(node, fv, st)
                 return
             if key is None:
+                key = self.auto_inline_contract(base.t.cls, name, node)
+            if key is None:
                 raise OutOfSubset('no contract for method %s.%s' % (base.t.cls, name), node)
             c = self.m.contracts[key]
             for s1, a in self.ev_args(node, st):
@@ -309,6 +311,8 @@ class Executor(ExprMixin, StmtMixin, Engine):
         if isinstance(base.t, TObj):
             if base.t.kind == 'class':
                 key = self.class_method_key(base.py, name)
+                if key is None:
+                    key = self.auto_inline_contract(base.py, name, node)
                 if key is None:
                     raise OutOfSubset('no contract for %s.%s' % (base.py, name), node)
                 c = self.m.contracts[key]
@@ -418,7 +422,7 @@ class Executor(ExprMixin, StmtMixin, Engine):
         if not z3.is_string_value(t):
             raise OutOfSubset('format on non-literal template: %s' % str(t)[:120], node)
         import string as _string
-        text = t.as_string()
+        text = z3_unescape(t.as_string())
         parts = []
         auto = 0
         for lit, field, spec, conv in _string.Formatter().parse(text):
@@ -1016,6 +1020,230 @@ class Executor(ExprMixin, StmtMixin, Engine):
                 yield s1, NONE_VAL
             else:
                 raise OutOfSubset('break/continue escaped function', node)
+
+    # ------------------------------------------------------------------ with ----------------
+    def find_class_method(self, pycls, name):
+        """(module, class, FunctionDef, source segment) of the method `name` of `pycls` (or of the nearest
+        base class that defines it) as the working tree has it - contract or not."""
+        c = pycls
+        while c is not None:
+            for module in sorted(self.m.namespaces):
+                try:
+                    src, tree = self.module_ast(module)
+                except (OSError, KeyError, SyntaxError):
+                    continue
+                for n in tree.body:
+                    if isinstance(n, ast.ClassDef) and n.name == c:
+                        for f in n.body:
+                            if isinstance(f, ast.FunctionDef) and f.name == name:
+                                return module, c, f, ast.get_source_segment(src, f)
+            c = self.m.subclass_of.get(c)
+        return None
+
+    def auto_inline_contract(self, pycls, name, node):
+        """A method of the working tree that has no contract (a helper split off by a refactoring, say) is
+        executed in place: its body is part of the caller's proof, exactly as written. Plain functions only
+        (no generator, no decorator other than classmethod / staticmethod, constant defaults); the synthetic
+        contract lives for this proof only and is reported in the evidence as inlined."""
+        found = self.find_class_method(pycls, name)
+        if found is None:
+            return None
+        module, owner, fdef, seg = found
+        key = '%s:%s.%s' % (module, owner, fdef.name)
+        if key in self.m.contracts:
+            # defined on a base class under another receiver type: use that contract
+            return key
+        key = self.synth_inline_contract(key, fdef)
+        if key is not None:
+            self.m.methods[(owner, fdef.name)] = key
+        return key
+
+    def synth_inline_contract(self, key, fdef):
+        decos = [d.id if isinstance(d, ast.Name) else getattr(d, 'attr', None) for d in fdef.decorator_list]
+        if any(d not in ('classmethod', 'staticmethod') for d in decos):
+            return None
+        if any(isinstance(x, (ast.Yield, ast.YieldFrom, ast.Await)) for x in ast.walk(fdef)):
+            return None
+        a = fdef.args
+        if a.vararg or a.kwarg or a.kwonlyargs or a.posonlyargs:
+            return None
+        params = []
+        defaults = [None] * (len(a.args) - len(a.defaults)) + list(a.defaults)
+        for arg, d in zip(a.args, defaults):
+            if d is None:
+                params.append((arg.arg, None))
+            elif isinstance(d, ast.Constant) and d.value is None:
+                params.append((arg.arg, None, NONE_VAL))
+            elif isinstance(d, ast.Constant) and isinstance(d.value, bool):
+                params.append((arg.arg, None, mk_bool(d.value)))
+            elif isinstance(d, ast.Constant) and isinstance(d.value, int):
+                params.append((arg.arg, None, mk_int(d.value)))
+            elif isinstance(d, ast.Constant) and isinstance(d.value, str):
+                params.append((arg.arg, None, mk_str(d.value)))
+            else:
+                return None
+        c = Contract(key, params, returns=None, inline=True,
+                     note='no contract: body executed in place at each call (auto-inlined)')
+        c.is_static = 'staticmethod' in decos
+        c.is_classmethod = 'classmethod' in decos
+        c.auto_inlined = True
+        self.m.contracts[key] = c
+        self.auto_inlined = getattr(self, 'auto_inlined', set()) | {key}
+        return key
+
+    def lookup_name(self, st, name, node=None):
+        v = super().lookup_name(st, name, node)
+        if v is not None or name in st.env or not self.cur_module:
+            return v
+        # a module-level function of the working tree that has no contract: executed in place
+        key = self.auto_inline_module_function(self.cur_module, name)
+        return mk_obj('func', key) if key is not None else None
+
+    def auto_inline_module_function(self, module, name):
+        try:
+            _src, tree = self.module_ast(module)
+        except (OSError, KeyError, SyntaxError):
+            return None
+        for n in tree.body:
+            if isinstance(n, ast.FunctionDef) and n.name == name:
+                key = '%s:%s' % (module, name)
+                if key not in self.m.contracts and self.synth_inline_contract(key, n) is None:
+                    return None
+                return key
+        return None
+
+    def exec_with(self, node, st):
+        """`with C.m(args):` where `m` is a generator function of the working tree decorated with
+        @contextmanager, of the shape  pre; yield; post   or   pre; try: yield finally: fin; post.
+        The statement is executed as contextlib does it: `pre` runs, then the block; a block that ends
+        without an exception (falls through, returns, breaks, continues) resumes the generator, which runs
+        `fin` and `post`; an exception of the block is thrown at the `yield`, so only `fin` runs and the
+        exception propagates. The generator's statements run in its own scope (parameters bound), its
+        writes are checked against the frame of the function under proof."""
+        if len(node.items) != 1 or node.items[0].optional_vars is not None:
+            raise OutOfSubset('with statement with several items or a target', node)
+        ce = node.items[0].context_expr
+        if not (isinstance(ce, ast.Call) and isinstance(ce.func, (ast.Attribute, ast.Name)) and not ce.keywords):
+            raise OutOfSubset('with statement on something other than a function or method call', node)
+        if isinstance(ce.func, ast.Name):
+            # a module-level generator function of the module under proof
+            if ce.func.id in st.env:
+                raise OutOfSubset('with statement on a local callable', node)
+            receivers = [(st, None)]
+        else:
+            receivers = self.ev(ce.func.value, st)
+        for s0, base in receivers:
+            if isinstance(base, Exc):
+                yield s0, self.raise_out(base)
+                continue
+            if base is None:
+                fdef = None
+                try:
+                    src, tree = self.module_ast(self.cur_module)
+                except (OSError, KeyError, SyntaxError):
+                    tree = None
+                for n in (tree.body if tree is not None else []):
+                    if isinstance(n, ast.FunctionDef) and n.name == ce.func.id:
+                        fdef = n
+                        seg = ast.get_source_segment(src, n)
+                if fdef is None:
+                    raise OutOfSubset('context manager %s not found in the module' % ce.func.id, node)
+                module, owner = self.cur_module, None
+                key = '%s:%s' % (module, fdef.name)
+            else:
+                if not (isinstance(base.t, TObj) and base.t.kind == 'class'):
+                    raise OutOfSubset('with statement on a method of a non-class receiver', node)
+                found = self.find_class_method(base.py, ce.func.attr)
+                if found is None:
+                    raise OutOfSubset('context manager %s.%s not found in the working tree' % (base.py, ce.func.attr), node)
+                module, owner, fdef, seg = found
+                key = '%s:%s.%s' % (module, owner, fdef.name)
+            decos = [d.id if isinstance(d, ast.Name) else getattr(d, 'attr', None) for d in fdef.decorator_list]
+            if 'contextmanager' not in decos:
+                raise OutOfSubset('with statement on a class-based context manager', node)
+            self.fn_hashes[key] = hashlib.sha256(seg.encode()).hexdigest()
+            body = list(fdef.body)
+            if body and isinstance(body[0], ast.Expr) and isinstance(body[0].value, ast.Constant) \
+                    and isinstance(body[0].value.value, str):
+                body = body[1:]
+
+            def is_yield(n):
+                return isinstance(n, ast.Expr) and isinstance(n.value, ast.Yield) and n.value.value is None
+            k = None
+            fin = []
+            for i, n in enumerate(body):
+                if is_yield(n):
+                    k = i
+                    break
+                if isinstance(n, ast.Try) and len(n.body) == 1 and is_yield(n.body[0]) and not n.handlers and not n.orelse:
+                    k = i
+                    fin = list(n.finalbody)
+                    break
+            if k is None or any(isinstance(x, (ast.Yield, ast.YieldFrom)) for n in body[:k] + fin + body[k + 1:]
+                                for x in ast.walk(n)):
+                raise OutOfSubset('context manager generator of an unsupported shape', node)
+            pre, post = body[:k], body[k + 1:]
+            names = [a.arg for a in fdef.args.args]
+            for s1, a in self.ev_args(ce, s0):
+                if isinstance(a, Exc):
+                    yield s1, self.raise_out(a)
+                    continue
+                pos = list(a[0])
+                if base is None:
+                    pass
+                elif 'classmethod' in decos:
+                    pos = [base] + pos
+                elif 'staticmethod' not in decos:
+                    raise OutOfSubset('context manager that is an instance method called on the class', node)
+                if len(pos) != len(names) or fdef.args.vararg or fdef.args.kwarg or fdef.args.kwonlyargs:
+                    raise OutOfSubset('context manager arity', node)
+                genv = dict(zip(names, pos))
+
+                def in_gen(stmts, state, env, _module=module, _owner=owner, _key=key, _fdef=fdef):
+                    """Runs statements of the generator in its scope; yields (state, outcome, generator env)."""
+                    caller_env = state.env
+                    state.env = dict(env)
+                    saved = (self.cur_module, self.cur_class, self.local_types)
+                    self.cur_module, self.cur_class, self.local_types = _module, _owner, {}
+                    self.cur_fn_stack.append(_key)
+                    self.inline_depth += 1
+                    saved_mut = getattr(self, 'mutated_globals', frozenset())
+                    self.mutated_globals = mutated_global_names(_fdef)
+                    try:
+                        results = list(self.exec_block(stmts, state))
+                    finally:
+                        self.inline_depth -= 1
+                        self.cur_fn_stack.pop()
+                        self.mutated_globals = saved_mut
+                        self.cur_module, self.cur_class, self.local_types = saved
+                    for s2, out in results:
+                        if s2.dead:
+                            continue
+                        e2 = s2.env
+                        s2.env = dict(caller_env)
+                        yield s2, out, e2
+
+                if self.inline_depth > 6:
+                    raise OutOfSubset('inline depth', node)
+                for s2, out, genv2 in in_gen(pre, s1, genv):
+                    if out.kind == 'raise':
+                        yield s2, out
+                        continue
+                    if out.kind != 'normal':
+                        raise OutOfSubset('context manager generator that ends before its yield', node)
+                    for s3, bout in self.exec_block(node.body, s2):
+                        if s3.dead:
+                            continue
+                        # __exit__: an exception of the block is re-raised at the yield (only a `finally` there
+                        # runs); any other way out resumes the generator after it
+                        rest = fin if bout.kind == 'raise' else fin + post
+                        for s4, gout, _e in in_gen(rest, s3, genv2):
+                            if gout.kind == 'raise':
+                                yield s4, gout
+                            elif gout.kind in ('normal', 'return'):
+                                yield s4, bout
+                            else:
+                                raise OutOfSubset('break/continue escaped a context manager generator', node)
 
     def inline_local(self, st, fdef, pos, kw, node):
         """Call of a function defined inside the function under proof: its body is executed in
